@@ -20,11 +20,11 @@ def prop(pid, **kw):
     kw.setdefault('assumptions', COMMON_ASSUME)
     P[pid] = kw
 
-prop('C01', verus_units=['iq', 'sl', 'p2p'],
+prop('C01', verus_units=['iq', 'sl', 'p2p', 'pro'],
      technique='Verus contracts on the real InputQueue / SyncLayer / P2PSession text (ring invariant, misprediction detection, rollback list)',
      level_text='Deductive proof (Verus/Z3, unbounded, generic over Config) of the per-peer chain: stored inputs are never rewritten (q_final), a Confirmed lookup returns the stored input (q_lookup), an arriving input that differs from the handed-out prediction sets first_incorrect_frame and nothing clears it but a rollback (q_detect), discarding keeps every frame from last_confirmed-1 on (q_keep), check_simulation_consistency is the minimum over queues and the pending disconnect (s_min), and handle_rollback_and_save goes back to exactly that frame, re-simulates every frame up to the current one with the queues reset, and restores current_frame (r_roll), all against one session invariant preserved by advance_frame, handle_event and set_input_delay.',
-     level_note='Per-peer only. NOT decided: that UdpProtocol::on_input delivers each remote input exactly once, in order, to the right queue (front end rejects it; handle_event states it as a precondition); agreement BETWEEN peers; the codec link is bounded (see C14); register_local_inputs / update_player_disconnects / poll_remote_clients are assumed contracts (INV-EXT); sparse saving excluded (contracts require !sparse_saving).',
-     claims=['C01.q_lookup', 'C01.q_final', 'C01.q_detect', 'C01.q_keep', 'C01.s_min', 'C01.s_conf', 'C01.r_roll'],
+     level_note='Per-peer only. UdpProtocol::on_input is under contract for: shape checks drop the packet unchanged, events are only appended, every appended Input event is for a frame newer than everything received before the packet and not newer than the new newest frame, the newest received frame never goes back (C01.deliver). NOT decided: that consecutive frames are delivered exactly once each to the right queue end-to-end (decode and bincode are assumed contracts; P2PSession::poll_remote_clients, which forwards the events, is outside the front end; handle_event states in-order delivery as a precondition); agreement BETWEEN peers; the codec link is bounded (see C14); register_local_inputs / update_player_disconnects / poll_remote_clients are assumed contracts (INV-EXT); sparse saving excluded (contracts require !sparse_saving).',
+     claims=['C01.q_lookup', 'C01.q_final', 'C01.q_detect', 'C01.q_keep', 'C01.s_min', 'C01.s_conf', 'C01.r_roll', 'C01.deliver'],
      residue=['protocol delivery (on_input)', 'cross-peer agreement', 'sparse saving', 'several local players (register_local_inputs assumed)'])
 prop('C02', verus_units=['sl', 'p2p', 'spc', 'st'],
      technique='Verus: ghost record of handed-out saves + executable-list semantics run_reqs as postcondition',
@@ -54,8 +54,8 @@ prop('C07', verus_units=['sl', 'p2p'],
 prop('C08', verus_units=['cdc', 'pro'], native={'quick': ['cdc_exhaust'], 'thorough': ['cdc_exhaust']},
      technique='Verus proof of the stream validator against a functional spec + bounded exhaustive execution of the real codec',
      level_text='Deductive proof (unbounded) that check_rle_stream, which now guards bitfield_rle::decode, is total and returns Ok(n) exactly for well-formed streams with n <= MAX_DECODED_LEN; BOUNDED stand-in (not a proof): exhaustive execution of the real decode/delta_decode on every byte string of length <= 3 with panics, overflow checks and allocation size observed.',
-     level_note='Only the codec/shape part of the property. Also proved (unit pro): handle_message drops every packet after shutdown or with a magic other than the one pinned by the handshake without changing anything. NOT decided: the shape checks inside on_input (status count, negative start frame, decoded size) and that a dropped packet changes neither delivered inputs nor connection state (on_input is outside both front ends); the address filter (poll_remote_clients). bincode::deserialize assumed total. The bounded part is labelled bounded in the evidence.',
-     claims=['C08.codec_total', 'C08.magic'], residue=['on_input shape checks', 'address filter'])
+     level_note='Only the codec/shape part of the property. Also proved (unit pro): handle_message drops every packet after shutdown or with a magic other than the one pinned by the handshake without changing anything. on_input (normalisations N-2, N-9, N-10) drops a packet with the wrong number of connection statuses or a negative start frame without changing anything, and a packet whose payload does not decode or has the wrong per-player size without delivering anything from the bad frame on. NOT decided: the address filter (poll_remote_clients); bincode and decode are assumed contracts inside on_input. bincode::deserialize assumed total. The bounded part is labelled bounded in the evidence.',
+     claims=['C08.codec_total', 'C08.magic', 'C08.shape'], residue=['address filter', 'to_player_inputs (bincode)'])
 prop('C11', verus_units=['iq', 'sl', 'p2p'],
      technique='Verus contracts on set_frame_delay / add_input (announced == stored, gapless)',
      level_text='Deductive proof at the queue, where the stream is produced: set_frame_delay returns exactly the frames it stores (consecutive from last_added+1, each a copy of the newest input), keeps the no-silent-fill invariant, add_input returns the frame where the input is stored or -1 with the queue unchanged; P2PSession::set_input_delay keeps last_frame == newest stored frame and rejects non-local handles unchanged; all in-code assertions discharged.',
